@@ -522,7 +522,10 @@ static var Table_Get(var self, var key) {
   struct Table* t = self;
   
   if (key >= t->data and ((char*)key) < ((char*)t->data) + t->nslots * Table_Step(self)) {
-    return Table_Val(self, (((char*)key) - ((char*)t->data)) / Table_Step(self));
+    size_t i = (((char*)key) - ((char*)t->data)) / Table_Step(self);
+    if (key is Table_Key(t, i) and Table_Key_Hash(t, i) isnt 0) {
+      return Table_Val(self, i);
+    }
   }
   
   key = cast(key, t->ktype);
